@@ -899,7 +899,8 @@ fn damage(tier: Tier, scratch: &Path, out: &mut Partial) -> u64 {
     ];
     let bases = if tier == Tier::Quick { bases[..4].to_vec() } else { bases };
     let cap = capacity(0, nc);
-    let mut cases: Vec<(usize, Fault, bool)> = vec![];
+    // (base, fault, applied while open, capacity of the re-opened cache, re-put the base's items after re-opening)
+    let mut cases: Vec<(usize, Fault, bool, u64, bool)> = vec![];
     let mut templates = vec![];
     for (bi, b) in bases.iter().enumerate() {
         let t = scratch.join(format!("tmpl{bi}"));
@@ -908,11 +909,34 @@ fn damage(tier: Tier, scratch: &Path, out: &mut Partial) -> u64 {
         for (sig, w) in o.violations {
             out.violation(&sig, format!("damage base {bi}: {w}"), hist_json(0, nc, &hist));
         }
+        // re-open capacities: unchanged, and two smaller ones under which the scan leaves files on disk
+        // untracked (a file longer than the capacity is skipped; the scan stops at twice the capacity)
+        let lens: Vec<u64> = util::list_tree(&t).iter().filter(|e| !e.1).map(|e| e.2).collect();
+        let mut rcaps = vec![cap];
+        if let (Some(mx), Some(mn)) = (lens.iter().max(), lens.iter().min()) {
+            for c in [*mx - 1, *mn] {
+                if c > 0 && !rcaps.contains(&c) {
+                    rcaps.push(c);
+                }
+            }
+        }
         for f in faults_for(&t, tier) {
-            cases.push((bi, f.clone(), false));
+            cases.push((bi, f.clone(), false, cap, false));
+            // content damage that keeps or changes the length, then the same items are put again
+            if matches!(f, Fault::FlipBits { len: 1 | 32, .. } | Fault::Truncate { .. } | Fault::Extend { .. } | Fault::Delete { .. }) {
+                for &rc in &rcaps {
+                    cases.push((bi, f.clone(), false, rc, true));
+                    if rc != cap {
+                        cases.push((bi, f.clone(), false, rc, false));
+                    }
+                }
+                if matches!(f, Fault::FlipBits { .. }) {
+                    cases.push((bi, f.clone(), true, cap, true));
+                }
+            }
             // deletion also while the cache is open
             if matches!(f, Fault::Delete { .. }) {
-                cases.push((bi, f, true));
+                cases.push((bi, f, true, cap, false));
             }
         }
         templates.push(t);
@@ -932,22 +956,34 @@ fn damage(tier: Tier, scratch: &Path, out: &mut Partial) -> u64 {
                     if i >= cases.len() {
                         break;
                     }
-                    let (bi, fault, while_open) = &cases[i];
+                    let (bi, fault, while_open, rcap, reput) = &cases[i];
                     {
                         let _ = util::make_writable(&dir);
                         let _ = std::fs::remove_dir_all(&dir);
                         util::copy_tree(&templates[*bi], &dir).unwrap();
                     }
-                    let replay = json!({"part": "damage", "base": bases[*bi].iter().map(|o| o.to_json()).collect::<Vec<_>>(), "base_index": bi, "fault_index": i, "fault": fault.to_json(), "while_open": while_open});
-                    let mut report = |sig: String, w: String| p.violation(&sig, format!("base {:?} fault {fault:?} (while open: {while_open}): {w}", bases[*bi]), replay.clone());
+                    let replay = json!({"part": "damage", "base": bases[*bi].iter().map(|o| o.to_json()).collect::<Vec<_>>(), "base_index": bi, "fault_index": i, "fault": fault.to_json(), "while_open": while_open, "reopen_capacity": rcap, "reput": reput});
+                    let mut reputs = 0u64;
+                    let mut report = |sig: String, w: String| p.violation(&sig, format!("base {:?} fault {fault:?} (while open: {while_open}, re-opened with capacity {rcap}, items put again: {reput}): {w}", bases[*bi]), replay.clone());
                     let cache = if *while_open {
-                        let c = open(&dir, cap);
+                        let c = open(&dir, *rcap);
                         apply_fault(&dir, fault);
                         c
                     } else {
                         apply_fault(&dir, fault);
-                        open(&dir, cap)
+                        open(&dir, *rcap)
                     };
+                    if let (true, Ok(c)) = (*reput, &cache) {
+                        for o in &bases[*bi] {
+                            if let Put(k, a, b) = o {
+                                let r = do_put(c, *k, *a, *b);
+                                reputs += 1;
+                                if let Some((sig, w)) = res_violation(o, &r) {
+                                    report(sig, w);
+                                }
+                            }
+                        }
+                    }
                     let mut hits = 0;
                     let mut misses = 0;
                     match cache {
@@ -983,6 +1019,7 @@ fn damage(tier: Tier, scratch: &Path, out: &mut Partial) -> u64 {
                         },
                     }
                     p.count("damage_cases", 1);
+                    p.count("damage_reputs", reputs);
                     p.count("damage_gets_hit", hits);
                     p.count("damage_gets_miss_or_err", misses);
                     let kind = format!("{fault:?}");
